@@ -38,6 +38,7 @@ type Entry struct {
 	MTime int64  `json:"mtime,omitempty"` // unix seconds, 0 = unset
 	NS    int    `json:"ns,omitempty"`
 	Zone  int    `json:"zone,omitempty"`
+	TZ    string `json:"tz,omitempty"` // mem backend: the modification time is held in this real zone with DST rules (overrides Zone)
 	MIME  string `json:"mime,omitempty"`
 	ETag  vev.B  `json:"etag,omitempty"`
 }
@@ -108,6 +109,9 @@ func bulk(p string, n int64) []byte {
 func mtime(e Entry) time.Time {
 	if e.MTime == 0 && e.NS == 0 {
 		return time.Time{}
+	}
+	if e.TZ != "" {
+		return time.Unix(e.MTime, int64(e.NS)).In(vev.Zone(e.TZ))
 	}
 	return time.Unix(e.MTime, int64(e.NS)).In(time.FixedZone("", e.Zone))
 }
@@ -555,6 +559,13 @@ func genEntries(rt *rapid.T, endpoint string, local bool) []Entry {
 				}
 				e.NS = rapid.SampledFrom([]int{0, 0, 1, 999999999}).Draw(rt, "ns")
 				e.Zone = rapid.SampledFrom([]int{0, 3600, -34200}).Draw(rt, "zone")
+				if !local && rapid.IntRange(0, 3).Draw(rt, "realzone") == 0 {
+					// a backend that keeps local times: instants within two hours of an offset change of a real zone
+					e.TZ = rapid.SampledFrom(vev.Zones).Draw(rt, "tz")
+					if tr := vev.Transitions(e.TZ); len(tr) > 0 {
+						e.MTime = tr[rapid.IntRange(0, len(tr)-1).Draw(rt, "transition")] + rapid.Int64Range(-7300, 7300).Draw(rt, "delta")
+					}
+				}
 			}
 			if !local {
 				e.MIME = rapid.SampledFrom(mimes).Draw(rt, "mime")
